@@ -4,7 +4,7 @@ import os
 import re
 
 from lib import facts, mir
-from .rtcommon import (configs, rt, every_return_passes, bool_switches_on_call, calls_in, ind_calls)
+from .rtcommon import (configs, rt, every_return_passes, bool_switches_on_call, ind_calls)
 
 CLAIM = dict(
     level="other", engine="mirfacts+synfacts", design="DESIGN.md §5 C23",
@@ -19,9 +19,6 @@ CLAIM = dict(
 
 FEATURE_CFG = {"full"}          # configurations compiled with the cargo feature `inter-task-wakeup`
 
-A_STORE = ["Atomic::store", "AtomicU32::store"]
-A_SWAP = ["Atomic::swap", "AtomicU32::swap"]
-A_LOAD = ["Atomic::load", "AtomicU32::load"]
 A_NEW = ["Atomic::new", "AtomicU32::new"]
 A_ANY = re.compile(r"core::sync::atomic::Atomic(U32)?(::<[^>]*>)?::(\w+)$")
 
@@ -336,6 +333,33 @@ def short(f):
         "::".join(f.npath.split("::")[-2:])
 
 
+RULES = {
+    "R23.1": "wake_by_ref: one swap(WOKEN); previous POLLING/WOKEN => no stream write and a normal return; previous "
+             "SLEEPING => WakerState::wake on every path (one site, no loop); SLEEP_STATE_* distinct; sleep_state only "
+             "receives these constants, only from callback / Drop for TaskState / wake_by_ref, SLEEPING only from "
+             "callback's closure; Wake::wake forwards to wake_by_ref.",
+    "R23.2": "cancel_inter_task_stream_read: no pending read => no effect; otherwise stream_reading := false, "
+             "remove_waitable_from_all_sets (= waitable.join(w, 0)) dominates the single cancel_read, same handle.",
+    "R23.3": "read_inter_task_stream: start_read only under !stream_reading, one item, result asserted BLOCKED, then "
+             "stream_reading := true and add_waitable(same handle); the stream pair is created once, both ends kept.",
+    "R23.4": "TaskState::callback: cancel dominates every poll_next; no poll after the read; store(SLEEPING) is guarded "
+             "by load() != WOKEN taken after the poll, is the last store before the read and always leads to read + "
+             "Wait; a wake seen after the poll leads to Yield / re-poll; deliver / cancel run under a non-SLEEPING "
+             "state; Drop for TaskState cancels before the futures are dropped.",
+    "R23.5": "consume_waitable_event clears stream_reading and returns true exactly on a handle match; "
+             "deliver_waitable_event removes the waitable from the sets first and does not forward a consumed event; "
+             "WakerState::wake writes one item to the stored writer and asserts COMPLETED | (1 << 4).",
+    "R23.6": "a task is never destroyed while sleep_state still says SLEEPING (Drop resets the state before cancelling "
+             "the read, or every Exit path of callback does).",
+    "R23.7": "UnitStreamOps::{start_read,start_write,cancel_read} forward unchanged to the matching built-ins; the "
+             "built-ins, the three operations and the stream_reading flag have no other users.",
+    "R23.8": "the futures are polled with a Context made from the task's own waker, itself a clone of its "
+             "SharedTaskState.",
+    "R23.D": "without the cargo feature: the stubs are inert, consume returns false, WakerState::wake never returns, "
+             "sleeping on Rust-only events traps.",
+}
+
+
 # ----------------------------------------------------------------------------------------------------------------
 def run(rep, tier):
     rep.describe(
@@ -361,6 +385,8 @@ def run(rep, tier):
         assumptions=["native (x86_64) build of the runtime: extern_wasm! built-ins appear as shim functions",
                      "the constant names inside assert_eq! resolve to the crate-level constants of the same name"],
     )
+    for rid, text in RULES.items():
+        rep.rule(rid, text)
     for cfg in configs(tier):
         rep.guard("R23", f"config:{cfg}", lambda cfg=cfg: one(rep, rt(cfg), cfg))
 
